@@ -70,8 +70,39 @@ def score(steps):
     return len(kinds) + 3 * best
 
 
+def window_ends(steps):
+    """By how much the slot counter falls, from 8 or more to below 8, between
+    two attempts of ONE pollOffer call (Poll ... sessions end ... NoOffer
+    Poll): the reported load has to follow it down.  0 = no such window."""
+    clients, at_poll, best = 0, None, 0
+    for s in steps:
+        a = s["act"]
+        if a == "GetInc":
+            clients += 1
+            at_poll = None
+        elif a in ("MainReleaseDec", "HandlerReleaseDec"):
+            clients -= 1
+        elif a == "Poll":
+            at_poll = clients
+        elif a == "NoOffer":
+            if at_poll is not None and at_poll >= 8 and clients < 8:
+                best = max(best, at_poll - clients)
+    return best
+
+
+# capacity 9, eight slots taken by the rig itself: the first attempt of a pollOffer call reports 8, seven slots
+# are freed while that request is held, the broker says "no match", the next attempt of the SAME call must
+# not report 8 any more
+PHANTOM_GOAL = ["Poll"] + ["PhantomGet"] * 8 + ["BadBrokerResponse", "Poll"] + ["PhantomRet"] * 7 + ["NoOffer", "Poll"]
+
+
 def gen_plans(chk, quick):
     plans = []
+    g = pr.dump_graph(chk, "Gen_phantom.cfg")
+    steps = g.path(PHANTOM_GOAL, rot=chk.seed - 1)
+    if steps is None:
+        raise vlib.Inconclusive("vacuity: no behaviour of Gen_phantom takes the phantom-session goal")
+    plans.append(mk_plan("phantom-stale-load-n9", 9, steps, chk.seed))
     graphs = {}
     for cap in (1, 2):
         g = pr.dump_graph(chk, "Gen_small.cfg", N=cap, MaxNoOffer=1 if cap == 1 else 0)
@@ -107,21 +138,25 @@ def gen_plans(chk, quick):
             raise vlib.Inconclusive("vacuity: no complete sampled behaviour within the time budget for capacity %d" % cap)
     if not quick:
         # capacity 9: eight relayed sessions at once, so that the reported load crosses the rounding step
-        sims = pr.simulate(chk, "Gen_sim.cfg", 6, chk.seed * 1000 + 9, depth=800, N=9, MaxSess=11, GenNoFaults="TRUE", GenHold=8,
-                           Classes='{"in_ws"}', MaxNoOffer=0, MaxTimeouts=0)
-        if not sims:
-            raise vlib.Inconclusive("vacuity: no capacity-9 behaviour sampled")
-        for i, s in enumerate(sims[:2]):
-            plans.append(mk_plan("sim-n9-%d" % i, 9, s, chk.seed))
+        # (GenHold: relayed sessions end only while a poll that reported >= 8 is held, i.e. between two
+        # attempts of one pollOffer call if the broker then says "no match")
+        sims = pr.simulate(chk, "Gen_sim.cfg", 120, chk.seed * 1000 + 9, depth=800, N=9, MaxSess=11, GenNoFaults="TRUE", GenHold=8,
+                           Classes='{"in_ws"}', MaxNoOffer=4, MaxTimeouts=0)
+        sims = [s for s in sims if pr.cost_s(s) <= 115]
+        order = sorted(range(len(sims)), key=lambda i: (-min(window_ends(sims[i]), 1), i))
+        if not order or window_ends(sims[order[0]]) < 1:
+            raise vlib.Inconclusive("vacuity: no capacity-9 sample in which the slot count falls below 8 between two attempts of one pollOffer call")
+        for i in order[:2]:
+            plans.append(mk_plan("sim-n9-%d" % i, 9, sims[i], chk.seed))
     return plans
 
 
 def model_check(chk, quick, box):
     """Runs in a thread next to behaviour generation and the real-time replays."""
     try:
-        runs = ["MC_cap1.cfg", "MC_cap2.cfg"] if quick else ["MC_cap1.cfg", "MC_cap2_big.cfg", "MC_cap3.cfg"]
+        runs = ["MC_cap1.cfg", "MC_cap2.cfg", "MC_phantom.cfg"] if quick else ["MC_cap1.cfg", "MC_phantom.cfg", "MC_cap2_big.cfg", "MC_cap3.cfg"]
         for cfg in runs:
-            cov = (not quick) and cfg == "MC_cap1.cfg"
+            cov = (not quick) and cfg in ("MC_cap1.cfg", "MC_phantom.cfg")
             r = pr.tlc_safe("ProxySession", cfg, workers=max(2, vlib.NCPU // 2), timeout=1500, coverage=cov)
             box["tlc"].append(r)
             box["notes"].append("TLC %s: %d distinct states, error=%s (%.0fs)" % (cfg, r.distinct, r.error, r.wall))
@@ -129,11 +164,13 @@ def model_check(chk, quick, box):
                 box["fail"].append("model check %s failed: %s\n%s" % (cfg, r.error, r.out[-2500:]))
                 return
             if cov:
-                zero = sorted(a for a, (d, t) in r.coverage.items() if t == 0 and not a.startswith("Policy"))
+                # phantom sessions need room next to the loop's own slot: they are covered by MC_phantom (N = 3)
+                zero = sorted(a for a, (d, t) in r.coverage.items() if t == 0 and not a.startswith("Policy")
+                              and (cfg == "MC_phantom.cfg" or not a.startswith("Phantom")))
                 if zero:
                     box["fail"].append("vacuity: actions never taken in %s: %s" % (cfg, zero))
                     return
-                box["cov"] = {a: t for a, (d, t) in r.coverage.items()}
+                box["cov"] = dict(box["cov"] or {}, **{"%s:%s" % (cfg[3:-4], a): t for a, (d, t) in r.coverage.items()})
         # the relay policy over every class (one session is enough), per pattern and flag
         combos = [("suffix", "FALSE"), ("any", "TRUE")] if quick else [(p, a) for p in ("suffix", "exact", "any") for a in ("FALSE", "TRUE")]
         for pat, allow in combos:
@@ -211,6 +248,13 @@ def judge(out):
         return "violation", "C16/%s/exit=%s" % (d2, context(ev, idx)), \
             "recorded execution is not a behaviour of the model (event %s) and violates %s when both release paths are allowed" % (json.dumps((detail or {}).get("event")), d2)
     e = (detail or {}).get("event", {})
+    if e.get("ev") == "poll" and isinstance(e.get("clients"), int):
+        # the real poll request itself; compare it with the real token state the rig read at the same moment
+        if e["clients"] % 8 != 0 or e["clients"] < 0:
+            return "violation", "C16/ReportedLoad/not-a-multiple-of-8", "poll request reports Clients=%s (tokens.count()=%s, len=%s)" % (e["clients"], e.get("count"), e.get("len"))
+        if e["clients"] > max(e.get("count", 0), e.get("len", 0)):
+            return "violation", "C16/ReportedLoad/exceeds-slots-in-use", \
+                "poll request reports Clients=%s while %s slots are in use (tokens.count()=%s, len(ch)=%s)" % (e["clients"], e.get("len"), e.get("count"), e.get("len"))
     return "violation", "C16/trace-rejected/%s@%s/exit=%s" % (e.get("ev"), e.get("g", "-"), context(ev, idx)), \
         "recorded execution is not a behaviour of the model: first unexplained event #%s %s" % (idx, json.dumps(e))
 
@@ -231,7 +275,7 @@ def run(chk, args):
         raise
     chk.note("%d behaviours to replay; longest estimated %.0fs" % (len(plans), max(pr.cost_s(p["steps"]) for p in plans)))
     longest = max(pr.cost_s(p["steps"]) for p in plans)
-    outs = pr.run_plans(binary, TEST, plans, parallel=16, timeout=longest + 120)
+    outs = pr.run_plans(binary, TEST, plans, parallel=18, timeout=longest + 120)
     chk.note("replays done (slowest %.0fs)" % max(o.wall for o in outs))
     results = [None] * len(outs)
 
@@ -308,7 +352,7 @@ def confirm(chk, binary, pending):
     it is not a verdict (exit 2)."""
     todo = []
     for sig, (out, status, what) in sorted(pending.items()):
-        if status == "violation" and "/trace-rejected/" not in sig:
+        if status == "violation" and "/trace-rejected/" not in sig and "/ReportedLoad/" not in sig:
             chk.violation(sig, "%s [behaviour %s]" % (what, out.plan["name"]), {"plan": out.plan, "trace": out.events[-60:]})
         else:
             todo.append((sig, out, status, what))
